@@ -3,7 +3,9 @@
 let ctl_of_char = function
   | 'A' -> CtlAltscreen | 'V' -> CtlCursorvis | 'B' -> CtlCursorblink | 'M' -> CtlMouse
   | 'H' -> CtlCursorshape | 'K' -> CtlKeypadApp | _ -> failwith "ctl"
-let parse_op s =
+(* U only: the application holds / releases its own references (root window, terminal) *)
+type xop = Op of mop | Hold | Release
+let parse_mop s =
   match split_on ':' s with
   | [k; v] when String.length k = 1 && String.contains "AVBMHK" k.[0] -> OSet (ctl_of_char k.[0], zi v)
   | ["g"; x] -> OGet (ctl_of_char x.[0])
@@ -11,6 +13,22 @@ let parse_op s =
   | ["c"; p] -> OChpen (parse_pen p)
   | ["Z"] -> OPause | ["R"] -> OResume | ["T"] -> OTeardown | ["D"] -> ODestroy
   | _ -> failwith "op"
+let parse_op s = match s with "w" | "h" -> Hold | "x" -> Release | _ -> Op (parse_mop s)
+(* the operations the harness really runs, as model operations (None = no model step, must be silent).
+   D of a toplevel is tickit_destroy = teardown + unref; it ends the case unless something is held;
+   releasing what is held afterwards destroys the terminal (nothing left to undo) *)
+let effective layer (ops : xop list) : (mop list option) list =
+  let rec go held dead = function
+    | [] -> []
+    | Hold :: r -> None :: go true dead r
+    | Release :: r -> if dead then [Some [ODestroy]] else None :: go false dead r
+    | Op ODestroy :: r ->
+      if layer = 'U' then
+        (if dead then [] else Some [OTeardown; ODestroy] :: (if held then go held true r else []))
+      else [Some [ODestroy]]
+    | Op o :: r -> if dead && (match o with OGet _ -> false | _ -> true) then Some [o] :: go held dead r
+      else Some [o] :: go held dead r in
+  go false false ops
 let probed decscusr rpm12 colon rgb =
   let d = xt_on_modereport xdrv_new (z_of_int 69) (z_of_int 1) in
   let d = xt_on_modereport d (z_of_int 25) (z_of_int 1) in
@@ -19,7 +37,7 @@ let probed decscusr rpm12 colon rgb =
   let d = xt_on_sgrreport d colon false in
   let ((d, _), _) = xt_setctl d CtlCapRgb8 (z_of_int (if rgb then 1 else 0)) in
   d
-type cse = { layer : char; alt : bool; decscusr : int; rpm12 : int; colon : bool; rgb : bool; ops : mop list }
+type cse = { layer : char; alt : bool; decscusr : int; rpm12 : int; colon : bool; rgb : bool; ops : xop list }
 let parse_case toks =
   match toks with
   | "T" :: ds :: r12 :: colon :: rgb :: ops ->
@@ -29,36 +47,32 @@ let parse_case toks =
     { layer = 'U'; alt = alt <> "0"; decscusr = 2; rpm12 = 2; colon = colon <> "0"; rgb = rgb <> "0";
       ops = List.map parse_op ops }
   | _ -> failwith "case"
+let first_op = function Some (o :: _) -> Some o | _ -> None
 let model line =
   let c = parse_case (split_ws line) in
   let b = Buffer.create 256 in
   Buffer.add_string b ("I:" ^ hex_of_bytes (render xt_start));
   let t0 = { t_drv = probed c.decscusr c.rpm12 c.colon c.rgb; t_started = true; t_pen = empty_pen;
              t_lines = z_of_int 25; t_cols = z_of_int 80 } in
-  let ops = if c.layer = 'U' then OSetup c.alt :: c.ops else c.ops in
-  let stopped = ref false in
-  let _ = List.fold_left (fun st o ->
-      match st with
-      | None -> None
-      | Some t ->
-        if !stopped then Some t else begin
-          (* a toplevel's D is tickit_destroy: teardown + destroy in one observation *)
-          let steps = if c.layer = 'U' && o = ODestroy then [OTeardown; ODestroy] else [o] in
-          let (t', toks, value, ok) = List.fold_left (fun (t, acc, value, ok) o ->
-              if not ok then (t, acc, value, ok) else
-                match mode_step t o with
-                | None -> (t, acc, value, false)
-                | Some ((t', ts), v) -> (t', acc @ ts, v, true)) (t, [], None, true) steps in
-          if not ok then (Buffer.add_string b " FAULT"; None) else begin
-            (match o with
-             | OSet _ -> Buffer.add_string b (Printf.sprintf " %d:%s" (match value with Some v -> int_of_z v | None -> 0) (hex_of_bytes (render toks)))
-             | OGet _ -> Buffer.add_string b (match value with Some v -> Printf.sprintf " =%d" (int_of_z v) | None -> " =fail")
-             | OSetup _ -> Buffer.add_string b (" S:" ^ hex_of_bytes (render toks))
-             | _ -> Buffer.add_string b (" " ^ hex_of_bytes (render toks)));
-            if o = ODestroy then stopped := true;
-            Some t'
-          end
-        end) (Some t0) ops in
+  let steps = (if c.layer = 'U' then [Some [OSetup c.alt]] else []) @ effective c.layer c.ops in
+  let _ = List.fold_left (fun st step ->
+      match st, step with
+      | None, _ -> None
+      | Some t, None -> Buffer.add_string b " -"; Some t
+      | Some t, Some ms ->
+        let (t', toks, value, ok) = List.fold_left (fun (t, acc, value, ok) o ->
+            if not ok then (t, acc, value, ok) else
+              match mode_step t o with
+              | None -> (t, acc, value, false)
+              | Some ((t', ts), v) -> (t', acc @ ts, v, true)) (t, [], None, true) ms in
+        if not ok then (Buffer.add_string b " FAULT"; None) else begin
+          (match List.hd ms with
+           | OSet _ -> Buffer.add_string b (Printf.sprintf " %d:%s" (match value with Some v -> int_of_z v | None -> 0) (hex_of_bytes (render toks)))
+           | OGet _ -> Buffer.add_string b (match value with Some v -> Printf.sprintf " =%d" (int_of_z v) | None -> " =fail")
+           | OSetup _ -> Buffer.add_string b (" S:" ^ hex_of_bytes (render toks))
+           | _ -> Buffer.add_string b (" " ^ hex_of_bytes (render toks)));
+          Some t'
+        end) (Some t0) steps in
   Buffer.contents b
 let oracle kp line =
   match String.split_on_char '|' line with
@@ -72,23 +86,29 @@ let oracle kp line =
        let v0 = set_md v0 (md_set_blink v0.v_md (c.rpm12 = 1)) in
        let v0 = if c.decscusr >= 0 then set_md v0 (md_set_shape v0.v_md (z_of_int c.decscusr)) else v0 in
        let init_ms = ms_of_vt v0 in
-       (* ops after D are not run by the harness *)
-       let rec upto = function [] -> [] | ODestroy :: _ -> [ODestroy] | o :: r -> o :: upto r in
-       let cops = (if c.layer = 'U' then [OSetup c.alt] else []) @ upto c.ops in
-       if List.length obs <> List.length cops then "BAD obs count" else begin
-         let items = List.map2 (fun o ob ->
-             match o with
-             | OSet _ -> (match split_on ':' ob with [r; h] -> ((o, bytes_of_hex h), Some (zi r)) | _ -> failwith "obs set")
-             | OGet _ -> if String.length ob > 1 && ob.[0] = '=' then
-                 ((o, []), (try Some (zi (String.sub ob 1 (String.length ob - 1))) with _ -> None)) else failwith "obs get"
-             | OSetup _ -> if String.length ob >= 2 && String.sub ob 0 2 = "S:" then
-                 ((o, bytes_of_hex (String.sub ob 2 (String.length ob - 2))), None) else failwith "obs setup"
-             | _ -> ((o, bytes_of_hex ob), None)) cops obs in
-         let s0 = { os_vt = v0; os_last = (fun _ -> None); os_pen = empty_pen; os_paused = false; os_stopped = false } in
-         match oracle_modes kp c.colon c.rgb (c.decscusr >= 0) init_ms O s0 items with
-         | MOk n -> Printf.sprintf "OK %d" (int_of_nat n)
-         | MOutOfRange i -> Printf.sprintf "OK range@%d" (int_of_nat i)
-         | MBadAt (i, w) -> Printf.sprintf "BAD @%d why=%d" (int_of_nat i) (int_of_nat w)
+       let steps = (if c.layer = 'U' then [Some [OSetup c.alt]] else []) @ effective c.layer c.ops in
+       if List.length obs <> List.length steps then "BAD obs count" else begin
+         (* taking or releasing a reference while the instance lives must write nothing *)
+         let noisy = List.exists2 (fun st ob -> st = None && ob <> "-") steps obs in
+         if noisy then "BAD bytes written by ref/unref" else begin
+           let pairs = List.filter (fun (st, _) -> st <> None) (List.combine steps obs) in
+           (* a step of several model operations (tickit_destroy) is judged as its last operation
+              on all the bytes: the state demanded after destroy is the one demanded after teardown *)
+           let items = List.map (fun (st, ob) ->
+               let o = (match st with Some ms -> List.nth ms (List.length ms - 1) | None -> failwith "step") in
+               match o with
+               | OSet _ -> (match split_on ':' ob with [r; h] -> ((o, bytes_of_hex h), Some (zi r)) | _ -> failwith "obs set")
+               | OGet _ -> if String.length ob > 1 && ob.[0] = '=' then
+                   ((o, []), (try Some (zi (String.sub ob 1 (String.length ob - 1))) with _ -> None)) else failwith "obs get"
+               | OSetup _ -> if String.length ob >= 2 && String.sub ob 0 2 = "S:" then
+                   ((o, bytes_of_hex (String.sub ob 2 (String.length ob - 2))), None) else failwith "obs setup"
+               | _ -> ((o, bytes_of_hex ob), None)) pairs in
+           let s0 = { os_vt = v0; os_last = (fun _ -> None); os_pen = empty_pen; os_paused = false; os_stopped = false } in
+           match oracle_modes kp c.colon c.rgb (c.decscusr >= 0) init_ms O s0 items with
+           | MOk n -> Printf.sprintf "OK %d" (int_of_nat n)
+           | MOutOfRange i -> Printf.sprintf "OK range@%d" (int_of_nat i)
+           | MBadAt (i, w) -> Printf.sprintf "BAD @%d why=%d" (int_of_nat i) (int_of_nat w)
+         end
        end
      | _ -> "BAD obs")
   | _ -> "BAD line"
